@@ -148,6 +148,10 @@ func (c *channel) enqueue(req request, responseChan chan<- response, streaming b
 	case <-c.parentCtx.Done():
 		c.routeResponse(req.msg.Metadata.MessageID, response{nid: c.node.ID(), err: fmt.Errorf("channel closed")})
 		return
+	case <-req.ctx.Done():
+		// the caller's context ended while waiting for the sender
+		c.routeResponse(req.msg.Metadata.MessageID, response{nid: c.node.ID(), err: req.ctx.Err()})
+		return
 	case c.sendQ <- req:
 	}
 }
